@@ -307,3 +307,49 @@ package badgerstore
 //@   # a failed Init (seeds rolled back) has announced nothing
 //@   ensures failed.quiet: imp(!isNil(rerr), chn == old(chn))
 //@   loop 1 invariant cbsOK(st) && st == old(st) && isNil(err) && imp(len(created) == 0, chn == old(chn))
+//@
+//@ # ================================================================ transactions: key, lock, release (C11)
+//@ # A transaction owns its key buffer (a fresh byte slice holding prefix+id) and its lock from Read/Write until the first Close.
+//@ props C11
+//@ func (st *Store) Read(id string) (txn store.ReadTxn)
+//@   requires st != nil && st.kl != nil
+//@   modifies alloc, bytes, ghost.rlocks
+//@   ensures lock: rlocks == old(rlocks) + 1
+//@   ensures txn: typeIs(txn, "*badgerstore.readTxn") && ptrOf(txn, "*badgerstore.readTxn") != nil && !ptrOf(txn, "*badgerstore.readTxn").closed && ptrOf(txn, "*badgerstore.readTxn").st == st && same(ptrOf(txn, "*badgerstore.readTxn").id, id) && isNil(ptrOf(txn, "*badgerstore.readTxn").v)
+//@   ensures key: bytes(ptrOf(txn, "*badgerstore.readTxn").rname) == st.prefix + id && ref(ptrOf(txn, "*badgerstore.readTxn").rname) >= old(nextRef()) && bytesframe(ptrOf(txn, "*badgerstore.readTxn").rname)
+//@ func (st *Store) Write(id string) (txn store.WriteTxn)
+//@   requires st != nil && st.kl != nil
+//@   modifies alloc, bytes, ghost.wlocks
+//@   ensures lock: wlocks == old(wlocks) + 1
+//@   ensures txn: typeIs(txn, "*badgerstore.writeTxn") && ptrOf(txn, "*badgerstore.writeTxn") != nil && !ptrOf(txn, "*badgerstore.writeTxn").closed && ptrOf(txn, "*badgerstore.writeTxn").st == st && same(ptrOf(txn, "*badgerstore.writeTxn").id, id) && isNil(ptrOf(txn, "*badgerstore.writeTxn").v)
+//@   ensures key: bytes(ptrOf(txn, "*badgerstore.writeTxn").rname) == st.prefix + id && ref(ptrOf(txn, "*badgerstore.writeTxn").rname) >= old(nextRef()) && bytesframe(ptrOf(txn, "*badgerstore.writeTxn").rname)
+//@ func (rt *readTxn) Close() (err error)
+//@   requires rt != nil && rt.st != nil && rt.st.kl != nil
+//@   modifies badgerstore.readTxn.closed, ghost.runlocks, alloc
+//@   ensures first: imp(!old(rt.closed), isNil(err) && rt.closed && runlocks == old(runlocks) + 1)
+//@   ensures again: imp(old(rt.closed), !isNil(err) && rt.closed && runlocks == old(runlocks))
+//@ func (wt *writeTxn) Close() (err error)
+//@   requires wt != nil && wt.st != nil && wt.st.kl != nil
+//@   modifies badgerstore.readTxn.closed, ghost.wunlocks, alloc
+//@   ensures first: imp(!old(wt.closed), isNil(err) && wt.closed && wunlocks == old(wunlocks) + 1)
+//@   ensures again: imp(old(wt.closed), !isNil(err) && wt.closed && wunlocks == old(wunlocks))
+//@ func readTxn.Exists$1(txn *badger.Txn) (err error)
+//@   requires rt.st != nil && txn != nil && len(rt.rname) > 0
+//@   modifies alloc
+//@   ensures found: imp(isNil(err), kvhas[keyid(bytes(rt.rname))])
+//@   ensures missing: imp(!kvhas[keyid(bytes(rt.rname))], !isNil(err))
+//@ func (rt readTxn) Exists() (ok bool)
+//@   requires rt.st != nil && rt.st.DB != nil && len(rt.rname) > 0
+//@   modifies alloc
+//@   ensures sem: imp(ok, kvhas[keyid(bytes(rt.rname))])
+//@ func readTxn.Value$1(txn *badger.Txn) (err error)
+//@   requires rt.st != nil && txn != nil && len(rt.rname) > 0
+//@   modifies alloc
+//@   ensures found: imp(isNil(err), kvhas[keyid(bytes(rt.rname))] && !isNil(v))
+//@   ensures missing: imp(!kvhas[keyid(bytes(rt.rname))], isErr(err, res.ErrNotFound))
+//@ func (rt readTxn) Value() (val interface{}, err error)
+//@   requires rt.st != nil && rt.st.DB != nil && len(rt.rname) > 0
+//@   modifies alloc
+//@   ensures cached: imp(!isNil(rt.v), same(val, rt.v) && isNil(err))
+//@   ensures missing: imp(isNil(rt.v) && !kvhas[keyid(bytes(rt.rname))], isErr(err, res.ErrNotFound) && isNil(val))
+//@   ensures found: imp(isNil(rt.v) && isNil(err), kvhas[keyid(bytes(rt.rname))] && !isNil(val))
